@@ -61,7 +61,7 @@ CHECKS = {
             'Exploration: parse(format(a)) == a over all Linux transports with arbitrary byte values, and every value zbus holds after parsing a grammar-generated string equals the percent-decoded value.',
             'Trusted: refmodel::addr. vsock transports are feature-gated and not built here.', '7/C23'),
     'C34': ('round-trip PBT: generated introspection trees -> XML text -> model -> XML -> model',
-            'Exploration: accessors of the parsed model equal the generated tree (independent writer with correct escaping, element kinds interleaved as the DTD allows) and write->read yields an equal value.',
+            'Exploration: accessors of the parsed model equal the generated tree (independent writer with correct escaping, element kinds interleaved as the DTD allows, present-but-empty names, single-field structure types) and write->read yields an equal value.',
             'Trusted: the harness\'s own XML writer/escaper.', '7/C34'),
     'C16': ('bounded exhaustive enumeration of client transcripts + random transcripts with arbitrary read splits, validated against a reference SASL server automaton',
             'Exploration, exhaustive within the stated bound: every transcript of up to 3/4 lines over 23 alternatives in 8 configurations, plus random long transcripts with splits and stray line endings; the server\'s reply words and completion must be a path of the (nondeterministic where the statement and the specification differ) reference automaton; no panic, no hang.',
@@ -73,13 +73,13 @@ CHECKS = {
             'Exploration over schedules: concurrent senders under generated task interleavings and write splits; the captured stream must frame into exactly the sent messages, per-sender order kept, fds with the first bytes only.',
             'Trusted: the scheduler polls zbus futures and ticks the connection executor itself (internal_executor(false)); no threads are involved, so a schedule byte string reproduces the run.', '6, 7/C18'),
     'C19': ('schedule- and history-exploring PBT with a fake peer (reply permutations, delays, noise, transport end)',
-            'Exploration over schedules and peer behaviours: each call completes exactly once with its own reply / error / transport error; hang = quiescence with a pending call.',
+            'Exploration over schedules and peer behaviours: each call completes exactly once with its own reply / error / transport error, also while bystander message streams exist (rule-less, type=method_return, type=error, small queues) and while the peer acknowledges late; hang = quiescence with a pending call.',
             'Trusted: scheduler and fake peer (reference message builder). The method_timeout path (real-time timer) is not exercised.', '6, 7/C19'),
     'C20': ('model-based PBT over stream histories (create / clone / drop / incoming / poll) under generated schedules and small queues',
-            'Exploration over histories: per-stream model queues vs what each stream yields; shared subscriptions survive the drop of one stream.',
+            'Exploration over histories: per-stream model queues (capacity as asked for, shared by clones) vs what each stream yields; shared subscriptions survive the drop of one stream; drops inside tasks (async drop), lazily consumed streams and queues asked for with a size are generated.',
             'Trusted: scheduler; streams are kept polled while messages are taken in (the property\'s proviso).', '6, 7/C20'),
     'C24': ('model-based PBT: bounded exhaustive histories + random long histories of at/remove against a set model, observed by lookup, method calls and introspection',
-            'Exploration, exhaustive within the stated bound (all histories of up to 3/4 operations over 6 paths x 3 interfaces with all 18 pairs looked up after every step), plus random histories to 40 operations with calls and introspection through a fake peer.',
+            'Exploration, exhaustive within the stated bound (all histories of up to 3/4 operations over 6 paths x 3 interfaces with all 18 pairs looked up after every step), plus random histories to 40 operations with calls and introspection through a fake peer; instance identity (which object answers) is checked, and the standard interfaces are removed / re-added as well.',
             'Trusted: the set model; fake peer and scheduler. Intermediate nodes without interfaces are not part of the compared set.', '7/C24'),
     'C25': ('model-based PBT over histories: a client folds GetManagedObjects + InterfacesAdded/Removed and is compared with the model after every step',
             'Exploration over histories under one or two (disjoint) managers with a Ping barrier after every step; folded view == model objects with current property values.',
@@ -88,28 +88,28 @@ CHECKS = {
             'Exploration over programs and inputs: per run one generated crate of 8 interfaces (~30 methods of all shapes); per case 1-3 registrations on a 5-path tree and 1-5 calls (valid / wrong path / interface / member / arguments, with and without the no-reply flag, both endiannesses); handler ran iff everything matches, with exactly the arguments sent; exactly one reply (none with the flag) carrying the predicted value with the declared signature, the handler\'s error, or the named standard error; emitted signals as declared; nothing else written.',
             'Trusted: generator table (Rust type -> signature / reference value), reference message builder / parser, harness scheduler. For an existing node without the interface either UnknownObject or UnknownInterface is accepted.', '7/C26'),
     'C27': ('program-generating PBT: introspection XML of generated interfaces on random trees checked by an own strict XML parser, by zbus_xml, against the generator\'s table and against wire behaviour',
-            'Exploration over programs: per case 1-4 interfaces (+ optional ObjectManager) on a tree, one node introspected: well-formed per an independent XML 1.0 parser, read by zbus_xml, every node lists exactly its interfaces (standard ones verified by calling them) and child nodes, members declared as in the table (names, directions, types, access, annotations), and Get / method replies / emitted signals on the wire carry the declared types. Doc comments contain XML-special text.',
+            'Exploration over programs: per case 1-4 interfaces (+ optional ObjectManager) on a tree, one node introspected: well-formed per an independent XML 1.0 parser, read by zbus_xml, every node lists exactly its interfaces (standard ones verified by calling them) and child nodes, members declared as in the table (names, directions, types, access, annotations), and Get / method replies / emitted signals on the wire carry the declared types. Doc comments contain XML-special text and runs of dashes; a second introspection after a change of the tree must reflect it; a hand-written Interface impl takes part.',
             'Trusted: refmodel::xml (written from the XML recommendation, unit-tested on accept / reject examples); generator table. Single-structure returns are excluded from the reply-signature comparison as the statement says.', '7/C27'),
     'C28': ('program-generating, model-based PBT over Get / GetAll / Set histories against generated property definitions',
-            'Exploration over programs and histories: per case one or two generated interfaces on an object and 3-10 operations from a raw peer (valid; unknown property / interface; read-only; write-only; wrongly typed; refused by the setter); a value model predicts every reply, the setter log and the PropertiesChanged signal of each step (exactly one with the new value / invalidation after a successful Set of an emitting property, none otherwise); final GetAll == model.',
+            'Exploration over programs and histories: per case one or two generated interfaces on an object and 3-10 operations from a raw peer (valid; unknown property / interface; read-only; write-only; wrongly typed; refused by the setter); a value model predicts every reply, the setter log and the PropertiesChanged signal of each step (exactly one with the new value / invalidation after a successful Set of an emitting property, none otherwise); final GetAll == model. Setters take &mut self or &self (value behind a Mutex), property names recur across interfaces of one object, a hand-written Interface impl takes part.',
             'Trusted: generator table; a write-only property is documented (and introspected) as not emitting change signals. Which error a rejected Set carries is not demanded (the statement says "an error").', '7/C28'),
     'C33': ('program-generating PBT: generated proxy traits against generated interfaces over harness-pumped scripted sockets (async, owned schedule) and over a socket pair with executor threads (blocking)',
-            'Exploration over programs, inputs and schedules: typed proxy calls with generated arguments; the handler log must show exactly the arguments sent, results / errors equal the prediction from the handler\'s label, emitted signals arrive on the proxy\'s stream with equal arguments, property reads equal the server\'s value and writes reach the setter (refused values error out).',
-            'Trusted: generator table and its ToR mapping; fresh proxy per operation (cache staleness is C31\'s subject). Blocking proxies run in real time: a 30 s give-up is reported as inconclusive (exit 2), never as a violation. Calls are issued only after the object server came to rest (known finding of C30).', '7/C33'),
+            'Exploration over programs, inputs and schedules: typed proxy calls with generated arguments; the handler log must show exactly the arguments sent, results / errors equal the prediction from the handler\'s label, emitted signals arrive on the proxy\'s stream with equal arguments, property reads equal the server\'s value and writes reach the setter (refused values error out). Half of the async cases keep one proxy per interface for the whole case (caching lazily / yes / no): after every write, through whichever proxy, every later read must give the server\'s value, including for two interfaces on one path that share a property name and for &self setters.',
+            'Trusted: generator table and its ToR mapping. Both connections are brought to rest between operations, so a kept proxy has seen every PropertiesChanged before the next read. Blocking proxies run in real time with a proxy per operation: a 30 s give-up is reported as inconclusive (exit 2), never as a violation. A recorded generated program the compiler rejects now is a violation (DESIGN §11).', '7/C33'),
     'C29': ('schedule-exploring PBT of call bursts against handlers that yield / wait on gates',
-            'Exploration over schedules: with spawn = false the start/end log must be strictly serial in arrival order; every call gets exactly one reply.',
+            'Exploration over schedules: with spawn = false the start/end log must be strictly serial in arrival order; every call gets exactly one reply (none for calls flagged as expecting none); bursts of up to 104 calls (longer than the queue of pending calls).',
             'Trusted: harness scheduler (one executor task per step), gates opened only at quiescence.', '6, 7/C29'),
     'C30': ('schedule-exploring PBT of re-entrant handlers and of calls arriving right after on-demand server creation; hang = quiescence',
-            'Exploration over schedules: handlers that add/remove objects and emit signals (methods, getters, setters; spawn on/off) and calls fed 0..7 steps after at() returned; every call must be answered before the system comes to rest.',
-            'Trusted: quiescence detection of the harness scheduler (all actors pending, no wake-up pending). Known finding: call lost right after on-demand creation.', '6, 7/C30'),
+            'Exploration over schedules: handlers that add/remove objects and emit signals (methods, getters, setters; spawn on/off) and calls fed 0..7 steps after at() returned; every call must be answered before the system comes to rest; handlers that remove their own object, with and without the read-only variant.',
+            'Trusted: quiescence detection of the harness scheduler (all actors pending, no wake-up pending). The loss of calls right after on-demand creation was a known finding and is repaired (known-findings.txt).', '6, 7/C30'),
     'C38': ('fault enumeration: EOF / I/O error injected at every inbound byte position and at every write call of scripted sessions, plus random sessions and schedules',
-            'Fault enumeration: every fault point of 6/40 fixed sessions (all byte positions x {EOF, error}, all write calls) and random further sessions; pending calls error out, streams yield exactly the completed messages then end, later work fails promptly, no panic.',
+            'Fault enumeration: every fault point of 6/40 fixed sessions (all byte positions x {EOF, error}, all write calls) and random further sessions; pending calls error out, streams yield exactly the completed messages then end (also a lazily polled stream whose queue is exactly full when the transport fails), later work fails promptly, no panic, no spinning on end-of-file.',
             'Trusted: scripted socket + scheduler; a write fault is modelled as the transport failing in both directions.', '7/C38'),
     'C39': ('schedule-exploring PBT over handle sets and drop orders; gated handlers for graceful shutdown',
-            'Exploration: socket halves dropped iff the last of a generated set of handles (clones, streams, proxies, signal streams; with/without object server) is dropped; graceful_shutdown pending while handlers are gated, complete (replies written, transport closed) afterwards.',
+            'Exploration: socket halves dropped iff the last of a generated set of handles (clones, streams, proxies, signal streams; with/without object server) is dropped; graceful_shutdown pending while handlers are gated, complete (replies written, transport closed) afterwards, also when two handles shut down at once. Drop scenarios include a never-polled full stream the reader stalls on and an object server first used while handles are being dropped.',
             'Trusted: Drop of the scripted socket halves is what the peer would see as the transport closing; the harness ticker stands in for the connection\'s executor thread.', '6, 7/C39'),
     'C31': ('history- and schedule-exploring PBT of a caching proxy against a server-consistent fake service',
-            'Exploration over interleavings of the GetAll reply with changed / invalidated signals (own and other interfaces, uncached property); cached values == fold(snapshot, later signals).',
+            'Exploration over interleavings of the GetAll reply with changed / invalidated signals (own and other interfaces, uncached property); cached values == fold(snapshot, later signals); signals naming several properties, mixed changed / invalidated lists.',
             'Trusted: the fake service emits only histories a real service could (snapshot reflects earlier changes). Property-change streams are exercised indirectly (cache task).', '7/C31'),
     'C32': ('history-exploring PBT of a proxy signal stream over a fake bus (owner lookups, genuine and forged owner changes, signals from several senders)',
             'Exploration over bus histories: yielded signals == those whose sender owned the name at receive time per the bus driver only.',
@@ -118,10 +118,10 @@ CHECKS = {
             'Exploration over histories with every reply code and genuine / forged NameAcquired / NameLost; local answers and bus calls must follow the bookkeeping model.',
             'Trusted: fake bus sends genuine signals only where a conformant bus could.', '7/C36'),
     'C37': ('invariant-based PBT over subscription histories with a recording fake bus',
-            'Exploration over histories of streams / clones / drops / proxies / signal streams; AddMatch never doubled, RemoveMatch never for unknown, registered set == live distinct signal rules, empty at the end.',
+            'Exploration over histories of streams / clones / drops / proxies / signal streams; AddMatch never doubled, RemoveMatch never for unknown, registered set == live distinct signal rules, empty at the end; two operations in flight at once, AddMatch refused by the bus (nothing may stay registered, later signals not delivered).',
             'Trusted: fake bus recording; expected rule values are built with the MatchRule parser only to compare rules as values rather than as strings.', '7/C37'),
     'C35': ('configuration search: generated feature subsets (exhaustive / pairwise-covering / seeded random) and generated downstream crates, compiler exit status as oracle, greedy shrinking to a minimal failing subset',
-            'Exploration over configurations: all subsets of the small crates, pairwise-covering and random subsets of zvariant (11 features) and zbus (runtime x 12 optional features), and downstream crates mixing feature selections; cargo check must succeed.',
+            'Exploration over configurations: all subsets of the small crates, pairwise-covering and random subsets of zvariant (11 features) and zbus (runtime x 12 optional features), runtime x vsock combinations, downstream crates mixing feature selections and workspace-level builds of several packages at once (feature unification, incl. zbus_xmlgen); cargo check must succeed.',
             'Trusted: cargo check (type checking without codegen) as "builds"; platform-only features are not built.', '7/C35'),
 }
 
